@@ -64,8 +64,12 @@ class PersistingDict(MutableMapping[str, VT]):
 
     def _save(self):
         if self._file_name:
-            with open(self._file_name, 'w') as json_file:
+            # Write to a temporary file and rename it over the old one, so that an interrupted
+            # write can never leave a truncated (unreadable) store behind
+            temp_file_name: str = self._file_name + '.tmp'
+            with open(temp_file_name, 'w') as json_file:
                 json_file.write(json_encode(self._data))
+            os.replace(temp_file_name, self._file_name)
 
     def __contains__(self, key: str) -> bool:
         return key in self._data
